@@ -15,7 +15,9 @@ from optiland.aberrations import Aberrations
 from optiland.aperture import Aperture
 from optiland.rays import PolarizedRays, PolarizationState, RayGenerator
 from optiland.distribution import create_distribution
-from optiland.geometries import Plane, StandardGeometry
+from optiland.geometries import (Plane, StandardGeometry, EvenAsphere,
+                                 PolynomialGeometry,
+                                 ChebyshevPolynomialGeometry)
 from optiland.materials import IdealMaterial
 from optiland.coatings import FresnelCoating
 from optiland.visualization import OpticViewer, OpticViewer3D, LensInfoViewer
@@ -302,6 +304,30 @@ class Optic:
         for surface in self.surface_group.surfaces:
             if surface.aperture is not None:
                 surface.aperture.scale(scale_factor)
+
+        # Scale decentres and the coefficients of non-conic sag terms: a term
+        # c * x^p * y^q (a length) becomes c * s^(1 - p - q)
+        for surface in self.surface_group.surfaces:
+            geometry = surface.geometry
+            geometry.cs.x = geometry.cs.x * scale_factor
+            geometry.cs.y = geometry.cs.y * scale_factor
+            if isinstance(geometry, ChebyshevPolynomialGeometry):
+                geometry.c = geometry.c * scale_factor
+                geometry.norm_x = geometry.norm_x * scale_factor
+                geometry.norm_y = geometry.norm_y * scale_factor
+            elif isinstance(geometry, PolynomialGeometry):
+                for i in range(len(geometry.c)):
+                    for j in range(len(geometry.c[i])):
+                        geometry.c[i][j] *= scale_factor ** (1 - i - j)
+            elif isinstance(geometry, EvenAsphere):
+                geometry.c = [c * scale_factor ** (1 - 2 * (i + 1))
+                              for i, c in enumerate(geometry.c)]
+
+        # Scale object heights
+        if self.field_type == 'object_height':
+            for field in self.fields.fields:
+                field.x = field.x * scale_factor
+                field.y = field.y * scale_factor
 
     def draw(self, fields='all', wavelengths='primary', num_rays=3,
              figsize=(10, 4), xlim=None, ylim=None):
